@@ -447,8 +447,12 @@ impl Deb822 {
             inject(&mut builder, new_paragraph.0);
         }
 
+        let unterminated_comment = current.last().map(|c| c.kind()) == Some(COMMENT);
         for c in current {
             builder.token(c.kind().into(), c.as_token().unwrap().text());
+        }
+        if unterminated_comment {
+            builder.token(NEWLINE.into(), "\n");
         }
 
         builder.finish_node();
